@@ -18,7 +18,7 @@ EXPLANATION = ("The option matrix is finite and is enumerated from the current t
 TRUSTED = ["ezodf / lxml do not fail on the documents rp2 builds", "template .ods files are well-formed and contain the sheets the generators address (exercised by the bounded matrix run)",
            "babel / gettext load the shipped catalogues"]
 ASSUMPTIONS = TRUSTED
-E2E = {"quick": 2, "thorough": 30, "on_doubt": 4, "cli": True}
+E2E = {"quick": 2, "thorough": 60, "on_doubt": 4, "cli": True}
 
 COUNTRIES = ["us", "jp", "es", "ie", "generic"]
 
@@ -126,6 +126,12 @@ def guards(pr):
     CI = A.Fn(pr.tree, "rp2.configuration.Configuration.__init__")
     out.append(A.bvc(CI.qual, "guard", "only_a_from_date_after_the_to_date_is_rejected", CI.has("if self.__from_date > self.__to_date:\n    raise RP2ValueError(ANY)"), "src/rp2/configuration.py",
                      "a one-day window (from-date == to-date) is a valid combination"))
+    from props import C12
+    out += [vc for vc in C12.main_flow(pr) if "method_option_defaults_to_nothing" in vc.label or "method_option_is_restricted" in vc.label]
+    IO = A.Fn(pr.tree, "rp2.plugin.report.abstract_ods_generator.AbstractODSGenerator._initialize_output_file")
+    keyed_1970 = [n for n in ast.walk(IO.node) if isinstance(n, ast.Subscript) and isinstance(n.ctx, ast.Load) and ast.unparse(n.slice) == "MIN_DATE.year"] if IO else [None]
+    out.append(A.bvc(IO.qual, "guard", "a_single_method_schedule_is_not_assumed_to_be_keyed_by_the_minimum_year", not keyed_1970, "src/rp2/plugin/report/abstract_ods_generator.py",
+                     "an [accounting_methods] section with one entry is keyed by that year, not by MIN_DATE.year: KeyError"))
     # open_positions: denominators
     OP = A.Fn(pr.tree, "rp2.plugin.report.open_positions.Generator.generate")
     f = OP.node
